@@ -8,11 +8,13 @@ from gen import plural as G
 def main():
     chk = common.Check('C04')
     import plural_common as P
-    proved = chk.prove('I18n.Props.C04', generated=('intexpr', 'grammar'))
+    import plurallr_common as PL
+    proved = chk.prove('I18n.Props.C04', generated=('intexpr', 'grammar', 'plurallr'))
     driver_ok = os.path.exists(common.driver_path()) and not any('untranslatable' in s for s in chk.lean.translation.values())
     strings = None
     if driver_ok:
         (_dis, _outs), strings = P.stream_parse(chk, 5 if chk.thorough else 4, 4 if chk.thorough else 3, 30000 if chk.thorough else 3000)
+        PL.stream_lr(chk, strings)
         cases = P.build_cases(chk, 5000 if chk.thorough else 1000, depth=6 if chk.thorough else 5)
         P.stream_eval(chk, cases, per_case=8 if chk.thorough else 4)
     else:
@@ -35,11 +37,13 @@ def main():
         trusted=['Lean 4.33 kernel', 'axioms: propext, Classical.choice, Quot.sound only',
                  'py2lean translator (evaluator) and grammar2lean dump (declarations)',
                  'rply LALR construction: NOT modelled - the hand-written lexer + recursive-descent parser model is tied to the real parser by the plural-parse stream',
-                 'Spec.mathEval / Spec.D / Spec.PluralY are my reading of C and plural.y'],
-        explanation='Proved for all inputs: eval_iff_C, eval_fails_iff, eval_error_kinds, eval_value_range (generated Evaluator = lazy ℤ semantics under the in-range side '
-                    'condition, any width >= 1); grammar_pin (declarations handed to rply = plural.y, by decide on the regenerated dump); parse_sound (model accepts => '
-                    'stratified C grammar derives that AST). OUTSTANDING (not yet proved, covered only by correspondence + falsifier): completeness of the parser model '
-                    '(every derivable token list is accepted), uniqueness of derivations, lexer <-> token spec, equivalence with the ambiguous plural.y grammar.')
+                 'Spec.mathEval / Spec.D / Spec.Amb / Spec.Tokens / Spec.PluralY are my reading of ISO C and plural.y'],
+        explanation='Proved for all inputs: eval_iff_C, eval_fails_iff, eval_error_kinds, eval_value_range (generated Evaluator = lazy Z semantics under the in-range side '
+                    'condition, any width >= 1); grammar_pin (declarations handed to rply = plural.y, by decide on the regenerated dump); lex_complete_sound / tokens_unique / '
+                    'lex_rejects_iff (lexer model = longest-lexeme tokenisation of plural.y yylex, unique, only blank and tab skipped); parse_sound + parse_complete = parse_iff_derives '
+                    '(parser model returns e iff the stratified C grammar derives e, with the fuel the model really uses) and derives_functional (one AST per token list); '
+                    'accept_iff_plural_y (accepted token lists = language of plural.y\'s ambiguous grammar); parse_string_iff / accept_string_iff / reject_string_iff (end to end on strings, '
+                    'no third outcome). OUTSTANDING: rply\'s LALR construction and driver are not part of the proved model (tie = plural-parse correspondence + reference-parser falsifier).')
 
 if __name__ == '__main__':
     common.main_wrapper(main)
